@@ -1,4 +1,4 @@
-(* Algebra.v — executable models of MatrixInversion (Gauss–Jordan without row exchange) and
+(* Algebra.v — executable models of MatrixInversion (Gauss–Jordan with partial pivoting) and
    MatrixDeterminant (Laplace expansion along the first row) of matrix.c. *)
 From mathcomp Require Import ssreflect ssrfun ssrbool eqtype ssrnat seq.
 From LS Require Import NumOps Kernels.
@@ -7,8 +7,15 @@ Section Algebra.
 Context {K : Type} {ops : NumOps K}.
 Local Notation vec := (seq K).
 Local Notation mat := (seq (seq K)).
-(* one column step: every row j <> i gets row_j - row_i * (AI[j][i]/AI[i][i]) *)
-Definition gj_step (n : nat) (AI : mat) (i : nat) : mat :=
+(* pivot search: first row r >= i with the largest |AI[r][i]| (strict >) *)
+Definition gj_pivot (n : nat) (AI : mat) (i : nat) : nat :=
+  foldl (fun piv j => if kltb (kabs (mget AI piv i)) (kabs (mget AI j i)) then j else piv) i (iota i.+1 (n - i.+1)).
+Definition swap_rows (AI : mat) (i r : nat) : mat :=
+  if i == r then AI else mkseq (fun x => nth [::] AI (if x == i then r else if x == r then i else x)) (size AI).
+(* one column step: pivot row exchanged into place, then every row j <> i gets
+   row_j - row_i * (AI[j][i]/AI[i][i]) *)
+Definition gj_step (n : nat) (AI0 : mat) (i : nat) : mat :=
+  let AI := swap_rows AI0 i (gj_pivot n AI0 i) in
   let ri := nth [::] AI i in
   let aii := nth k0 ri i in
   mkseq (fun j => let rj := nth [::] AI j in
